@@ -30,7 +30,7 @@ func c18RuleSet(prefix string) c18Rules {
 
 func checkC18(c *Ctx) {
 	r, p := c.R, c.P
-	r.Explanation = "Decides structural necessary conditions of C18 on concurrency/dir.Dir.Write. The analysis is shape-independent in three ways. (i) It runs on an interprocedural control-flow graph of Write in which every same-module callee that touches the file system or reads or writes Dir's state (methods, functions, local closures, bound method values, thin wrappers) is expanded at its call site; the nil-ness of a callee's error result is carried back (a `return <call>` of unknown nil-ness is split into a nil and a non-nil continuation) and the caller's test of that result follows only the feasible branch, so steps written inline or in helpers are seen alike; a function-typed value is followed to the one function it denotes (closure variable, parameter bound at the call site of the frame — callback helpers such as withLock(func() error {…}) —, construction-time func / single-implementation interface field, element of a literal slice); a result of an expanded callee stays correlated with the caller: the return site control came back from is remembered, so a flag / small enum / (value, ok) result decides the caller's branch on it and a value result is read as what that return site returned; an error variable assigned on several paths (`err := a(); if err == nil { err = b() }; if err == nil { … }; return err`) is, at each merge, the result of the call the path came from, so later tests of the variable are decided per path (a file-system call whose error flows into such a variable is followed on its success and on its failure continuation separately); a test of a merged error variable whose origin on the path is not known keeps both branches and makes every failing path-dependent obligation downstream of it UNDECIDED; cmp.Or / errors.Join of error results are nil exactly when every part is nil; counted loops over small literal slices (`for _, dir := range []string{base, newDir}`, `for _, step := range []func() error{…}`) are unrolled by tracking the loop counter (any loop form: range over slice or int, classic, rotated; also a variadic/slice parameter bound to a literal at the call site), one frame per iteration, so each element is a step of its own. Bounds: callee frames nest at most 6 deep and never recurse, literal slices of at most 8 elements are unrolled, at most 20 file-system operations are tracked; beyond a bound the affected findings are UNDECIDED. (ii) Dir's fields are resolved by ROLE: string fields stored only into freshly constructed values are read as the term the constructor stored (over the exported Options.Target), the target is the path the constructor received, the previous-version field is the *string (or non-constructor string) field of Dir, fields of structs nested in Dir by value or by pointer included; with a string field, a bool field that the writer sets to true is the flag saying that a previous version is recorded (its false branch counts as none, and it must be set together with prev); accessors with a single return are looked through; unexported names are not used. (iii) File-system calls are compared by symbolic path terms (constants, filepath.Join / concatenation with the separator / Sprintf / strconv, time.Now with the identity of each evaluation, pure helpers inlined, values travelling through variable cells chased). " +
+	r.Explanation = "Decides structural necessary conditions of C18 on concurrency/dir.Dir.Write. The analysis is shape-independent in three ways. (i) It runs on an interprocedural control-flow graph of Write in which every same-module callee that touches the file system or reads or writes Dir's state (methods, functions, local closures, bound method values, thin wrappers) is expanded at its call site; the nil-ness of a callee's error result is carried back (a `return <call>` of unknown nil-ness is split into a nil and a non-nil continuation) and the caller's test of that result follows only the feasible branch, so steps written inline or in helpers are seen alike; a function-typed value is followed to the one function it denotes (closure variable, parameter bound at the call site of the frame — callback helpers such as withLock(func() error {…}) —, construction-time func / single-implementation interface field, element of a literal slice); a result of an expanded callee stays correlated with the caller: the return site control came back from is remembered, so a flag / small enum / (value, ok) result decides the caller's branch on it and a value result is read as what that return site returned; an error variable assigned on several paths (`err := a(); if err == nil { err = b() }; if err == nil { … }; return err`) is, at each merge, the result of the call the path came from, so later tests of the variable are decided per path (a file-system call whose error flows into such a variable is followed on its success and on its failure continuation separately); a test of a merged error variable whose origin on the path is not known keeps both branches and makes every failing path-dependent obligation downstream of it UNDECIDED; cmp.Or / errors.Join of error results are nil exactly when every part is nil; counted loops over small literal slices (`for _, dir := range []string{base, newDir}`, `for _, step := range []func() error{…}`) are unrolled by tracking the loop counter (any loop form: range over slice or int, classic, rotated; also a variadic/slice parameter bound to a literal at the call site), one frame per iteration, so each element is a step of its own. Bounds: callee frames nest at most 6 deep and never recurse, literal slices of at most 8 elements are unrolled, at most 20 file-system operations are tracked; beyond a bound the affected findings are UNDECIDED. (ii) Dir's fields are resolved by ROLE: string fields stored only into freshly constructed values are read as the term the constructor stored (over the exported Options.Target), the target is the path the constructor received, the previous-version field is the *string (or non-constructor string) field of Dir, fields of structs nested in Dir by value or by pointer included; with a string field, a bool field that the writer sets to true is the flag saying that a previous version is recorded (its false branch counts as none, and it must be set together with prev); accessors with a single return are looked through, and a previous-version value (or its flag) handed to a helper as an argument is the caller's field there; a nil test on a value of that field's type that cannot be traced to the field makes a failing removed-or-none obligation UNDECIDED; unexported names are not used. (iii) File-system calls are compared by symbolic path terms (constants, filepath.Join / concatenation with the separator / Sprintf / strconv, time.Now with the identity of each evaluation, pure helpers inlined, values travelling through variable cells chased). " +
 		"(W1-order) there is exactly one os.Rename whose destination is the target, its source is the path of an os.Symlink made in the same call, that link points at the version directory (directly, or by base name from the same directory); the creation of the version directory, every write below it and the Symlink have their error tested and no path on which one of them failed (or was skipped) reaches the rename; nothing touches the version directory after the rename — including deferred calls: `defer os.X(…)`, deferred closure literals and deferred same-package functions are modelled as running at every return of their frame that follows the defer statement, under their own condition (tests of the named error result against nil — also through a *error parameter —, captured/pointed-to bool flags whose must-value at the return is tracked); a deferred mutation of the version directory that can run at a return reachable after the successful rename is a violation, one whose condition cannot be evaluated is UNDECIDED. " +
 		"(W1-complete) the files are written in a complete enumeration of the map parameter: a range loop over the map (value = range value or m[key]), or a complete index/range walk over a slice that provably holds exactly the map's keys (collected by an unconditional append in a complete range loop, or maps.Keys/slices.Collect/slices.Sorted; sorting allowed; a filtered collection or a walk starting after index 0 is a violation); path = join(version dir, key) and content = value of the same entry, every iteration passes the success edge of the write before the back edge, and the rename is reached only through the loop's end. " +
 		"(W1-nil-published) every return that yields a nil error is dominated by the success edge of the rename (named results, bare returns and returns of a callee's result included; a return whose nil-ness cannot be established makes a failing obligation UNDECIDED). " +
